@@ -212,7 +212,7 @@ def handle (name : String) (args : List String) : String :=
   match name with
   | "polygon.signedArea" =>
     match args.mapM parseRat >>= edgesOf with
-    | some es => "ok " ++ showRat (Polygon.signedArea es) ++ " " ++ showRat (Polygon.area es) ++ " " ++ showRat (Polygon.direction es)
+    | some es => "ok " ++ showRat (Polygon.signedAreaFrom es) ++ " " ++ showRat (Polygon.areaFrom es) ++ " " ++ showRat (Polygon.directionFrom es)
     | none => "bad-args"
   | "sweep" =>
     match args with
